@@ -690,6 +690,9 @@ class GroupBy:
             else:
                 arr = arr.view(int)
                 dtype = orig_type
+                if isinstance(dtype, pa.DataType):
+                    # a raw pyarrow type cannot be used as a pandas dtype
+                    dtype = pd.ArrowDtype(dtype)
         else:
             dtype = None
         return pd.Series(
